@@ -44,8 +44,11 @@ fn check_prog_len(prog: &[u8]) -> Result<(), Error> {
     if prog.is_empty() {
         reject("no program set, call set_program() to load one")?;
     }
+    // Execution must not run past the last instruction: it has to be an EXIT or an unconditional
+    // jump (any other instruction of the jump class, e.g. a conditional jump or a call, can fall
+    // through).
     let last_opc = ebpf::get_insn(prog, (prog.len() / ebpf::INSN_SIZE) - 1).opc;
-    if last_opc & ebpf::BPF_CLS_MASK != ebpf::BPF_JMP {
+    if last_opc != ebpf::EXIT && last_opc != ebpf::JA {
         reject("program does not end with “EXIT” instruction")?;
     }
 
